@@ -140,6 +140,33 @@ def _object_assertion_to_cst(assertion: ass.ObjectAssertion) -> cst.SimpleStatem
     )
 
 
+def _enum_to_cst(value: Any) -> cst.BaseExpression:
+    """Convert an enum member to ``EnumClass.MEMBER``.
+
+    Args:
+        value: The enum member.
+
+    Returns:
+        The CST expression representing the member.
+    """
+    enum_type = type(value)
+    root, *parts = enum_type.__qualname__.split(".")
+    type_expr: cst.BaseExpression = cst.Name(root)
+    if root.startswith("_"):
+        # Private names are not imported into the test module, go through the alias.
+        type_expr = cst.Attribute(
+            value=cst.Name(get_module_alias(enum_type.__module__)), attr=cst.Name(root)
+        )
+    for part in parts:
+        # Enums nested in classes
+        type_expr = cst.Attribute(value=type_expr, attr=cst.Name(part))
+    name = value.name
+    if name is None or name not in enum_type.__members__:
+        # E.g., a composite flag without a member name of its own: EnumClass(value)
+        return cst.Call(func=type_expr, args=[cst.Arg(value=_value_to_cst(value.value))])
+    return cst.Attribute(value=type_expr, attr=cst.Name(name))
+
+
 def _value_to_cst(value: Any) -> cst.BaseExpression:  # noqa: C901
     """Recursively convert a Python value to a libcst expression.
 
@@ -153,6 +180,9 @@ def _value_to_cst(value: Any) -> cst.BaseExpression:  # noqa: C901
         return cst.Name("None")
     if isinstance(value, bool):
         return cst.Name("True" if value else "False")
+    if tu.is_enum(type(value)):
+        # Before the primitives: members of IntEnum / StrEnum are ints / strs, too.
+        return _enum_to_cst(value)
     if isinstance(value, int):
         if value < 0:
             return cst.UnaryOperation(operator=cst.Minus(), expression=cst.Integer(str(-value)))
@@ -171,11 +201,6 @@ def _value_to_cst(value: Any) -> cst.BaseExpression:  # noqa: C901
                 cst.Arg(value=_make_float_literal(value.imag)),
             ],
         )
-    if tu.is_enum(type(value)):
-        # EnumClass.MEMBER
-        class_name = type(value).__name__
-        member_name = value.name
-        return cst.Attribute(value=cst.Name(class_name), attr=cst.Name(member_name))
     typ = type(value)
     if tu.is_list(typ):
         return cst.List(elements=[cst.Element(value=_value_to_cst(v)) for v in value])
